@@ -583,6 +583,15 @@ func c01Random(res *core.Result, rng *rand.Rand, i int) {
 			v = reflect.ValueOf(s)
 		}
 	}
+	if v.Kind() == reflect.Slice {
+		// spare capacity (append-grown slices, prefixes of longer slices): the measure is the length
+		if extra := (v.Len()*7 + 3) % 4; extra > 0 {
+			s2 := reflect.MakeSlice(v.Type(), v.Len(), v.Len()+extra)
+			reflect.Copy(s2, v)
+			v = s2
+			res.Count("slices_with_spare_capacity")
+		}
+	}
 	// one case in six uses a DEFINED type of the same kind (type GInt int32, type GStr string, ...):
 	// the verdict must not depend on the type's identity
 	if rng.Intn(6) == 0 {
